@@ -769,8 +769,9 @@ func (h *H) tierA(r *lib.Rand, thorough bool) {
 			h.runScenario(scenario{calls: mk(o, rep), prefix: 1, depth: rep % 3, gomax: gm})
 		}
 	}
-	// (5) the Start || Stop race, many times (the window between Start's status switch and the assignment of
-	// system.Context is a few hundred nanoseconds wide)
+	// (5) the Start || Stop race, many times (before /repo commit 0843af8 Start released statusLock between its
+	// status switch and the assignment of system.Context - a window a few hundred nanoseconds wide in which a Stop
+	// returned nil without stopping anything; the monitor stop-skipped-kill-and-cancel stays armed)
 	n := 3000
 	if thorough {
 		n = 40000
